@@ -377,6 +377,7 @@ func fromLatin1(b []byte) string {
 // ---- run ------------------------------------------------------------------------------------------
 
 type outcome struct {
+	history bool // the re-use phase ran (second ReadFrom into the same value, setters after accessors)
 	skipped string
 	raw     []byte
 	encoded bool // a header needed word-encoding
@@ -525,38 +526,77 @@ func judge(c Case, o *outcome) (sig, msg string) {
 	}
 
 	// accessors return what was set (on the built and on the parsed message)
-	wantSubject := ""
-	if c.Subject != nil {
-		wantSubject = *c.Subject
+	if sig, msg := accessors("parsed", m2, c); sig != "" {
+		return sig, msg
 	}
-	wantDate := time.Unix(c.DateUnix-((c.DateUnix%60)+60)%60, 0)
-	wantType := fbb.MsgType(c.Type)
-	if wantType == "" {
-		wantType = fbb.Private
+	if sig, msg := accessors("built", m, c); sig != "" {
+		return sig, msg
 	}
-	for _, mm := range []struct {
-		which string
-		m     *fbb.Message
-	}{{"parsed", m2}, {"built", m}} {
-		x := mm.m
-		if got := x.Subject(); got != wantSubject {
-			return "subject-accessor", fmt.Sprintf("%s message: Subject() = %q, want %q (header %q)", mm.which, got, wantSubject, x.Header.Get("Subject"))
+	// history: the same Message values are used again after their accessors were called. (a) the parsed value
+	// receives a second, different message through ReadFrom (which replaces header, body and attachments);
+	// (b) the built value gets a new date and subject through the setters, then a new Date through the public
+	// Header. Every accessor must describe the current content, and the bytes must be those of the second message.
+	c2 := c
+	c2.Mid = "B" + c.Mid[1:]
+	if c2.Mid == c.Mid {
+		c2.Mid = "C" + c.Mid[1:]
+	}
+	c2.DateUnix = c.DateUnix + 3*86400 + 7*60
+	if c2.DateUnix > time.Date(9999, 12, 31, 23, 59, 59, 0, time.UTC).Unix() {
+		c2.DateUnix = c.DateUnix - 3*86400 - 7*60
+	}
+	if c.Subject != nil && len(*c.Subject) > 1 {
+		s2 := (*c.Subject)[:len(*c.Subject)/2]
+		if utf8.ValidString(s2) && strings.TrimSpace(s2) == s2 && s2 != "" {
+			c2.Subject = &s2
 		}
-		if got := x.Date(); !got.Equal(wantDate) {
-			return "date-accessor", fmt.Sprintf("%s message: Date() = %s, want %s (header %q)", mm.which, got.UTC(), wantDate.UTC(), x.Header.Get("Date"))
+	}
+	c2.From, c2.To = c.From, c.To
+	if len(c.To) > 1 {
+		c2.To = c.To[1:]
+	}
+	if len(c.Files) > 0 {
+		c2.Files = c.Files[1:]
+	}
+	if c2.valid() == "" && len(raw)%2 == 0 { // every second case (by a property of the case itself)
+		mB, err := build(c2)
+		if err != nil {
+			return "setbody-error", fmt.Sprintf("SetBody (second message): %v", err)
 		}
-		if got := x.From(); got != c.From.expect() {
-			return "address-accessor", fmt.Sprintf("%s message: From() = %+v, want %+v for SetFrom(%q)", mm.which, got, c.From.expect(), c.From.input())
+		rawB, err := mB.Bytes()
+		if err != nil {
+			return "serialise-error", fmt.Sprintf("Bytes() of the second message: %v", err)
 		}
-		if got := x.To(); !addrsEqual(got, c.To) {
-			return "address-accessor", fmt.Sprintf("%s message: To() = %+v for AddTo %+v", mm.which, got, c.To)
+		if err := m2.ReadFrom(&chunkReader{data: rawB, sched: c.Chunks}); err != nil {
+			return "parse-error", fmt.Sprintf("ReadFrom of a second message into a Message value that already held one: %v", err)
 		}
-		if got := x.Cc(); !addrsEqual(got, c.Cc) {
-			return "address-accessor", fmt.Sprintf("%s message: Cc() = %+v for AddCc %+v", mm.which, got, c.Cc)
+		if sig, msg := accessors("value re-used for a second ReadFrom", m2, c2); sig != "" {
+			return sig, msg
 		}
-		if x.Type() != wantType || x.Mbo() != c.Mycall || x.MID() != c.Mid {
-			return "header-accessor", fmt.Sprintf("%s message: Type() %q (want %q), Mbo() %q (want %q), MID() %q (want %q)", mm.which, x.Type(), wantType, x.Mbo(), c.Mycall, x.MID(), c.Mid)
+		if again, err := m2.Bytes(); err != nil || !bytes.Equal(again, rawB) {
+			return "reserialise-differs", fmt.Sprintf("a Message value re-used for a second ReadFrom serialises to other bytes than it read: err=%v, first difference at byte %d", err, firstDiff(rawB, again))
 		}
+		if len(m2.Files()) != len(c2.Files) {
+			return "file-mismatch", fmt.Sprintf("a Message value re-used for a second ReadFrom has %d attachments, the second message %d", len(m2.Files()), len(c2.Files))
+		}
+		// (b) setters after the accessors were used
+		m.Header.Set("Mid", c2.Mid)
+		m.SetDate(time.Unix(c2.DateUnix, 0))
+		if c2.Subject != nil {
+			m.SetSubject(*c2.Subject)
+		}
+		c3 := c
+		c3.Mid, c3.DateUnix, c3.Subject = c2.Mid, c2.DateUnix, c2.Subject
+		if sig, msg := accessors("built message after SetDate/SetSubject were called again", m, c3); sig != "" {
+			return sig, msg
+		}
+		du3 := time.Unix(c.DateUnix, 0).UTC()
+		m.Header.Set("Date", fmt.Sprintf("%04d/%02d/%02d %02d:%02d", du3.Year(), int(du3.Month()), du3.Day(), du3.Hour(), du3.Minute()))
+		c3.DateUnix = c.DateUnix
+		if sig, msg := accessors("built message after Header.Set(\"Date\")", m, c3); sig != "" {
+			return sig, msg
+		}
+		o.history = true
 	}
 	// extra headers survive, in order, under the canonical key
 	wantX := map[string][]string{}
@@ -585,6 +625,38 @@ func judge(c Case, o *outcome) (sig, msg string) {
 			return "wire-format", fmt.Sprintf("File header %q decodes to %q (err=%v), want %q", h, got, err, c.Files[i].Name)
 		}
 	}
+	return "", ""
+}
+
+// accessors checks that every accessor of x returns what case c set.
+func accessors(which string, x *fbb.Message, c Case) (sig, msg string) {
+	wantSubject := ""
+	if c.Subject != nil {
+		wantSubject = *c.Subject
+	}
+	wantDate := time.Unix(c.DateUnix-((c.DateUnix%60)+60)%60, 0)
+	wantType := fbb.MsgType(c.Type)
+	if wantType == "" {
+		wantType = fbb.Private
+	}
+		if got := x.Subject(); got != wantSubject {
+			return "subject-accessor", fmt.Sprintf("%s message: Subject() = %q, want %q (header %q)", which, got, wantSubject, x.Header.Get("Subject"))
+		}
+		if got := x.Date(); !got.Equal(wantDate) {
+			return "date-accessor", fmt.Sprintf("%s message: Date() = %s, want %s (header %q)", which, got.UTC(), wantDate.UTC(), x.Header.Get("Date"))
+		}
+		if got := x.From(); got != c.From.expect() {
+			return "address-accessor", fmt.Sprintf("%s message: From() = %+v, want %+v for SetFrom(%q)", which, got, c.From.expect(), c.From.input())
+		}
+		if got := x.To(); !addrsEqual(got, c.To) {
+			return "address-accessor", fmt.Sprintf("%s message: To() = %+v for AddTo %+v", which, got, c.To)
+		}
+		if got := x.Cc(); !addrsEqual(got, c.Cc) {
+			return "address-accessor", fmt.Sprintf("%s message: Cc() = %+v for AddCc %+v", which, got, c.Cc)
+		}
+		if x.Type() != wantType || x.Mbo() != c.Mycall || x.MID() != c.Mid {
+			return "header-accessor", fmt.Sprintf("%s message: Type() %q (want %q), Mbo() %q (want %q), MID() %q (want %q)", which, x.Type(), wantType, x.Mbo(), c.Mycall, x.MID(), c.Mid)
+		}
 	return "", ""
 }
 
@@ -973,6 +1045,7 @@ func account(c Case, o outcome) {
 	lab(y > 2100, "date:year>2100")
 	lab(c.ZoneSec != 0, "date:non-utc-zone")
 	lab(c.DateUnix%60 != 0 || c.DateNano != 0, "date:with-seconds")
+	lab(o.history, "history:value-reused(second ReadFrom, setters after accessors)")
 	harness.Label("type:" + map[bool]string{true: "default", false: c.Type}[c.Type == ""])
 	if harness.WantSample() && len(c.Files) > 0 && o.encoded {
 		harness.Sample(render(c, o))
